@@ -10,21 +10,25 @@ import (
 	v1p "github.com/godaddy/asherah/go/appencryption/plugins/aws-v1/persistence"
 	v2m "github.com/godaddy/asherah/go/appencryption/plugins/aws-v2/dynamodb/metastore"
 
+	"github.com/godaddy/asherah/go/appencryption/pkg/persistence"
+
 	"verif/harness/fakes/ddb"
+	"verif/harness/fakes/sqlmini"
 	"verif/harness/probe"
 )
 
 // Backends lists the metastore implementations a world can sit on: the in-memory store, and the two DynamoDB
-// plug-ins over the semantic DynamoDB fake.
-var Backends = []string{"memory", "dynamodb-v1", "dynamodb-v2"}
+// plug-ins over the semantic DynamoDB fake, and the SQL metastore over the mini SQL engine.
+var Backends = []string{"memory", "dynamodb-v1", "dynamodb-v2", "sql"}
 
 var v1sess = awssession.Must(awssession.NewSession(aws.NewConfig().WithRegion("us-west-2")))
 
 // plug is a real metastore plug-in whose backing rows the harness can flip out of band.
 type plug struct {
-	name string
-	ms   appencryption.Metastore
-	tbl  *ddb.Table
+	name   string
+	ms     appencryption.Metastore
+	revoke func(id string, created int64) bool
+	close  func()
 }
 
 // mirror sends every call to the plug-in (the SDK sees exactly the plug-in's behaviour) and copies every accepted
@@ -62,14 +66,19 @@ func NewOn(secretImpl, backend string) *World {
 		return w
 	case "dynamodb-v1":
 		t := ddb.NewTable("EncryptionKey")
-		w.plug = &plug{backend, v1p.NewDynamoDBMetastore(v1sess, v1p.WithClient(ddb.V1{T: t})), t}
+		w.plug = &plug{backend, v1p.NewDynamoDBMetastore(v1sess, v1p.WithClient(ddb.V1{T: t})), t.SetRevoked, nil}
 	case "dynamodb-v2":
 		t := ddb.NewTable("EncryptionKey")
 		ms, err := v2m.NewDynamoDB(v2m.WithDynamoDBClient(ddb.V2{T: t}))
 		if err != nil {
 			panic(err)
 		}
-		w.plug = &plug{backend, ms, t}
+		w.plug = &plug{backend, ms, t.SetRevoked, nil}
+	case "sql":
+		// the SQL metastore over the mini SQL engine behind database/sql (MySQL placeholder dialect)
+		db, h := sqlmini.Open(sqlmini.MySQL)
+		h.SetMaxOpenConns(4)
+		w.plug = &plug{backend, persistence.NewSQLMetastore(h), db.SetRevoked, func() { h.Close(); db.Drop() }}
 	default:
 		panic("unknown back end " + backend)
 	}
